@@ -88,6 +88,7 @@ inductive Op
   | clone (r : CRef) (k : Nat)
   | drop (k : Nat)
   | setf (n : NRef) (s : Slot) (r : CRef)
+  | movef (n : NRef) (s : Slot) (k : Nat)   -- move the pointer in `H[k]` into the field (no clone)
   | clrf (n : NRef) (s : Slot)
   | takef (n : NRef) (s : Slot) (k : Nat)
   | getf (n : NRef) (s : Slot) (k : Nat)
@@ -187,9 +188,9 @@ inductive Frame
   /-- `adjust_trigger_point` after a collection that returned normally -/
   | adjustAfter
   /-- `Cc::new` after the automatic collection: allocate and store in `H[k]` -/
-  | newAlloc (k : Nat) (id : Id) (sp : NewSpec)
+  | newAlloc (k : Nat) (sp : NewSpec)
   /-- `new_cyclic` after the automatic collection -/
-  | newCyclicAlloc (k : Nat) (id : Id) (sp : NewSpec) (body : Nat) (selfw : Option Nat)
+  | newCyclicAlloc (k : Nat) (sp : NewSpec) (body : Nat) (selfw : Option Nat)
   /-- `new_cyclic` after the closure returned; holds `PanicGuard` and the closure's `Weak` -/
   | newCyclicEnd (k : Nat) (id : Id) (sp : NewSpec) (selfw : Option Nat)
   /-- `Cleaner::register` after the map exists -/
@@ -256,6 +257,10 @@ def isTracing (c : Cfg) (w : World) : Bool :=
 def emit (w : World) (e : Event) : World := { w with events := w.events ++ [e] }
 def push (w : World) (f : Frame) : World := { w with stack := f :: w.stack }
 def upd (w : World) (x : Id) (f : Obj → Obj) : World := { w with heap := w.heap.set x (f (w.heap x)) }
+/-- Apply `f` to every object of a list. (The accumulator of the fold is a structure, not a function:
+folding over the heap function itself makes the compiled driver exponential, every layer being
+re-evaluated on every look-up.) -/
+def updAll (w : World) (l : List Id) (f : Obj → Obj) : World := l.foldl (fun w x => w.upd x f) w
 def updMeta (w : World) (x : Id) (f : Meta → Meta) : World := { w with metas := w.metas.set x (f (w.metas x)) }
 
 /-- A frame that runs as cleanup of an unwinding is on the stack. -/
@@ -409,7 +414,10 @@ def toT1 (w : World) : T1.Heap := fun i =>
 
 /-- Write counters and marks back after the tracing phases. -/
 def fromT1 (w : World) (h : T1.Heap) : World :=
-  { w with heap := fun i => { w.heap i with tc := (h i).tc, mark := (h i).mark } }
+  { w with heap := fun i =>
+      let o := w.heap i
+      let t := h i
+      { o with tc := t.tc, mark := t.mark } }
 
 /-- First non-empty field of a node in declaration order (`slots`, `uslots`, `wslots`, `cleaner`),
 removed from the object. -/
@@ -451,16 +459,15 @@ def execOp (c : Cfg) (w : World) (self wc : Option Id) (op : Op) : World :=
   | .new k sp =>
     if (w.getH k).isSome ∨ k ≥ w.H.length then skip
     else
-      let id := w.next
-      let w := { w with next := id + 1, ret := .ok }
-      let w := w.push (.newAlloc k id sp)
+      -- the object gets its identity when its box is allocated, after the automatic collection (if any)
+      let w := { w with ret := .ok }
+      let w := w.push (.newAlloc k sp)
       if w.shouldCollect c then (w.push .adjustAfter).startCollect else w
   | .newCyclic k sp body selfw =>
     if !c.weak ∨ (w.getH k).isSome ∨ k ≥ w.H.length then skip
     else
-      let id := w.next
-      let w := { w with next := id + 1, ret := .ok }
-      let w := w.push (.newCyclicAlloc k id sp body selfw)
+      let w := { w with ret := .ok }
+      let w := w.push (.newCyclicAlloc k sp body selfw)
       if w.shouldCollect c then (w.push .adjustAfter).startCollect else w
   | .clone r k =>
     match w.resolveC self r with
@@ -484,6 +491,22 @@ def execOp (c : Cfg) (w : World) (self wc : Option Id) (op : Op) : World :=
           | some y => w.push (.dropCc y)
           | none => w
         else w.raise
+      | none => skip
+    | _, _ => skip
+  | .movef n s k =>
+    -- safe Rust cannot move a pointer while the target is borrowed through that very pointer
+    let aliased := match n with
+      | .of (.h k') => k' == k
+      | _ => false
+    if aliased then skip else
+    match w.resolveN self n, w.getH k with
+    | some t, some x =>
+      match getSlot (w.heap t) s with
+      | some old =>
+        let w := { ((w.setH k none).upd t fun o => setSlot o s (some x)) with ret := .ok }
+        match old with
+        | some y => w.push (.dropCc y)
+        | none => w
       | none => skip
     | _, _ => skip
   | .clrf n s =>
@@ -712,12 +735,10 @@ def execOp (c : Cfg) (w : World) (self wc : Option Id) (op : Op) : World :=
   | .cfgBuf b => if c.auto then { w with bufThr := b, ret := .ok } else skip
   | .cfgPct bits => if c.auto then { w with pctBits := bits, ret := .ok } else skip
 
-def unmarkAllObj (h : Heap) (l : List Id) : Heap := l.foldl (fun h x => h.set x { h x with mark := .non }) h
-
 /-- Beginning of `deallocate_list`. -/
 def startDealloc (c : Cfg) (w : World) (N : List Id) : World :=
   let w' := { (w.push (.deallocDrop N N w.dropping)) with dropping := true }
-  if c.weak then { w' with heap := N.foldl (fun h x => h.set x { h x with dropped := true }) w'.heap } else w'
+  if c.weak then w'.updAll N fun o => { o with dropped := true } else w'
 
 /-- `Cc::drop`, last owner, after the optional finalizer: the count goes to 0, the object leaves the
 buffer, `_dropping_guard`, the dropped flag, then `drop_in_place`. -/
@@ -744,10 +765,9 @@ def unwindFrame (c : Cfg) (w : World) (f : Frame) : World :=
   | .collectLoop _ oldFin oldDrop =>
     { w with collecting := false, finalizing := oldFin, dropping := oldDrop }
   | .finalizePass N _ _ oldFin =>
-    { w with finalizing := oldFin, heap := RustCc.unmarkAllObj w.heap N }
+    { (w.updAll N fun o => { o with mark := .non }) with finalizing := oldFin }
   | .deallocDrop N _ oldDrop =>
-    { w with dropping := oldDrop,
-             heap := N.foldl (fun h x => h.set x { h x with mark := .non, dropped := (h x).dropped || c.weak }) w.heap }
+    { (w.updAll N fun o => { o with mark := .non, dropped := o.dropped || c.weak }) with dropping := oldDrop }
   | .regInsert _ _ _ (some y) =>
     -- the closure passed to `register` is dropped, and with it the captured pointer
     { (w.push (.actionEnd (some y) true)) with mode := .running }
@@ -785,6 +805,8 @@ def stepFrame (c : Cfg) (w : World) (f : Frame) : World :=
       { ((w.upd x fun o => { o with rc := o.rc - 1 }).addToList x) with finalizing := oldFin }
     else destroyLast c { w with finalizing := oldFin } x
   | .afterDropValue x oldDrop =>
+    -- `debug_assert_eq!(0, counter, "Trying to deallocate a CcBox with a reference counter > 0")`
+    if (w.heap x).rc ≠ 0 then { (w.push (.afterDropValue x oldDrop)) with mode := .stuck } else
     let w := if c.weak then w.dropMetadata x else w
     let w := w.freeBox x
     { w with dropping := oldDrop }
@@ -867,8 +889,7 @@ def stepFrame (c : Cfg) (w : World) (f : Frame) : World :=
       if !hasFin then RustCc.startDealloc c w N
       else
         -- `swap_list` + `mark_self_and_append`: re-buffer the list in front of what was buffered meanwhile
-        let heap := N.foldl (fun h x => h.set x { h x with tc := 0, mark := .pc }) w.heap
-        { w with heap := heap, pc := N ++ w.pc }
+        { (w.updAll N fun o => { o with tc := 0, mark := .pc }) with pc := N ++ w.pc }
   | .deallocDrop N rest oldDrop =>
     match rest with
     | x :: r =>
@@ -876,18 +897,22 @@ def stepFrame (c : Cfg) (w : World) (f : Frame) : World :=
       let w := if c.weak then w.upd x fun o => { o with dropped := true } else w
       w.push (.dropValue x)
     | [] =>
+      -- same assertion, for every member of the list
+      if N.any (fun x => (w.heap x).rc != 0) then { (w.push (.deallocDrop N [] oldDrop)) with mode := .stuck } else
       let w := N.foldl (fun w x => (if c.weak then w.dropMetadata x else w).freeBox x) w
       { w with dropping := oldDrop }
   | .adjustAfter =>
     { w with thr := Policy.adjustF c.defaultThr (Policy.fuelFor w.allocBytes w.thr) w.allocBytes w.pctBits w.thr }
-  | .newAlloc k id sp =>
+  | .newAlloc k sp =>
+    let id := w.next
     let o := newObj c w sp
-    let w := { w with heap := w.heap.set id o, allocBytes := w.allocBytes + o.size }
+    let w := { w with next := id + 1, heap := w.heap.set id o, allocBytes := w.allocBytes + o.size }
     (w.emit (.alloc id o.size)).putH k id
-  | .newCyclicAlloc k id sp body selfw =>
+  | .newCyclicAlloc k sp body selfw =>
     -- box allocated with an uninitialised value, side record created, counts 0 strong / 1 weak
+    let id := w.next
     let o := { newObj c w sp with rc := 0, valLive := false, hasMeta := true }
-    let w := { w with heap := w.heap.set id o, allocBytes := w.allocBytes + o.size }
+    let w := { w with next := id + 1, heap := w.heap.set id o, allocBytes := w.allocBytes + o.size }
     let w := w.emit (.alloc id o.size)
     let w := w.updMeta id fun _ => { weak := 1, accessible := true, live := true }
     let w := w.push (.newCyclicEnd k id sp selfw)
@@ -906,7 +931,8 @@ def stepFrame (c : Cfg) (w : World) (f : Frame) : World :=
           (w.updMeta id fun m => { m with weak := m.weak + 1 }).upd id fun o =>
             { o with wslots := o.wslots.set (selfw.getD 0) (some id) }
         else w
-      let w := w.upd id fun o => { o with valLive := true, rc := 1 }
+      -- the value is written, then `increment_counter()` takes the strong count from 0 to 1
+      let w := w.upd id fun o => { o with valLive := true, rc := o.rc + 1 }
       let w := w.weakDrop (.to id)
       w.putH k id
   | .mapAlloc owner =>
